@@ -9,6 +9,9 @@ A_COMMON = [
     "A3: try_lock never fails spuriously",
     "A5: bounded programs (threads, operations per thread) and deviation bounds as reported in coverage",
     "A6: g++ 12.2 -O1 with -fsanitize=thread instrumentation routed to our own runtime",
+    "A7: the library keeps no mutable static / thread_local state across uses (true of the tree; the trip lines are "
+    "reset by the C19 harness): many executions share one process, and state that survives an execution makes the "
+    "check stop with a machinery error (exit 2) instead of a verdict",
 ]
 A_MM = "A4: operational C++11 memory-model fragment (no load buffering / out-of-thin-air executions)"
 
@@ -200,9 +203,11 @@ prop("C13",
 prop("C14",
      [dict(name="C14_lr", src="C03.cpp", cxxflags=["-DMODE_C14", "-fno-access-control"], deadline=dict(quick=60, thorough=400)),
       dict(name="C14_cow", src="C04.cpp", cxxflags=["-DMODE_C14"], deadline=dict(quick=60, thorough=400)),
-      dict(name="C14_rcu", src="rcu.cpp", cxxflags=["-DMODE_C14"], deadline=dict(quick=100, thorough=500))],
+      dict(name="C14_rcu", src="rcu.cpp", cxxflags=["-DMODE_C14"], deadline=dict(quick=100, thorough=500)),
+      dict(name="C14_rcu_alloc", src="rcu.cpp", cxxflags=["-DMODE_C14", "-DSTATEFUL_ALLOC"], deadline=dict(quick=100, thorough=300))],
      SCHED_RULE + " Programs: the C03 (lr_guarded), C04 (cow_guarded) and C05 (rcu) program sets; every read "
-     "acquisition is bracketed as a read-side section.",
+     "acquisition is bracketed as a read-side section; the rcu programs run on rcu_list<T> with std::allocator and "
+     "again with a stateful custom allocator.",
      "Oracles: (1) no blocking-capable operation (mutex / rwlock acquisition, condition wait, yield, sleep) is "
      "executed inside a read-side section, whether or not it would have blocked in this schedule; (2) solo "
      "completion: a read-side section finishes within a small fixed number of the reader's own visible steps in "
